@@ -754,7 +754,13 @@ def run_case(case):
     try:
         with open(os.path.join(tmp, "child.py"), "w") as f:
             f.write(CHILD)
-        if case.get("bad") is not None:
+        if case.get("servers") is not None:
+            try:
+                with host_logging(case):
+                    _run_host_runner(case, tmp, obs)
+            except BaseException as ex:  # noqa: BLE001
+                obs["harness_error"] = f"{type(ex).__name__}: {ex}"[:300]
+        elif case.get("bad") is not None:
             with host_logging(case):
                 _run_bad(case, tmp, obs)
         else:
@@ -767,6 +773,56 @@ def run_case(case):
         kill_tagged(tmp)
         shutil.rmtree(tmp, ignore_errors=True)
     return obs
+
+
+def _run_host_runner(case, tmp, obs):
+    """The stdio client contexts as the library's own multi-server host enters and leaves them:
+    `mcp_client.host.server_manager.run_command` (enter every server, initialize, run the command function, leave every
+    context).  `servers` are child specs; after run_command has returned no child may be left and no descriptor added."""
+    from chuk_mcp.mcp_client.host import server_manager as SM
+    from chuk_mcp.protocol.messages.send_message import send_message
+
+    script = os.path.join(tmp, "child.py")
+    servers = {}
+    for i, sp in enumerate(case["servers"]):
+        d = {"kind": sp["behaviour"]}
+        d.update({k: sp[k] for k in CHILD_KEYS if k in sp})
+        servers[f"s{i}"] = {"command": sys.executable, "args": ["-S", "-E", script, json.dumps(d)]}
+    cfg = os.path.join(tmp, "config.json")
+    with open(cfg, "w") as f:
+        json.dump({"mcpServers": servers}, f)
+    clock = {}
+    reqs = obs["requests"]
+
+    async def command(server_streams):
+        obs["entered"] = True
+        for i, (r, w) in enumerate(server_streams):
+            rec = {"client": i, "x": f"{case.get('nonce', 'n')}-s{i}", "outcome": None}
+            reqs.append(rec)
+            try:
+                rec["payload"] = await send_message(r, w, "echo", {"x": rec["x"]}, timeout=ANSWER_TIMEOUT_S)
+                rec["outcome"] = "returned"
+            except TimeoutError:
+                rec["outcome"] = "timeout"
+            except Exception as ex:  # noqa: BLE001
+                rec["outcome"], rec["exc"] = "error", type(ex).__name__
+        clock["exit"] = time.monotonic()
+        if case["path"] == "exception":
+            raise Boom("command failed")
+
+    me = os.getpid()
+    fd0 = nfds()
+    _r, z0 = scan(tmp, me)
+    import io
+    with contextlib.redirect_stdout(io.StringIO()):
+        SM.run_command(command, cfg, list(servers))
+    t_end = time.monotonic()
+    if "exit" in clock:
+        obs["duration_ms"] = int((t_end - clock["exit"]) * 1000)
+    running, z = scan(tmp, me)
+    obs["state"] = "running" if running else ("zombie" if [p for p in z if p not in z0] else "gone")
+    obs["fd_delta"] = nfds() - fd0
+    obs["state_at_return"], obs["fd_delta_at_return"] = obs["state"], obs["fd_delta"]
 
 
 def _run_bad(case, tmp, obs):
@@ -845,6 +901,7 @@ def _worker_init(repo):
     with contextlib.suppress(Exception):
         dn = os.open(os.devnull, os.O_WRONLY)
         os.dup2(dn, 2)                         # children inherit stderr; keep their tracebacks off the terminal
+        os.dup2(dn, 1)                         # results travel through the pool's own pipes; run_command clears the screen
         os.close(dn)
 
 
